@@ -221,6 +221,59 @@ def sensitive_request(r, kind, fam=None):
     return ops, fam
 
 
+def context_calls(r, fam, side):
+    """ops that set ONE side's context several times on the same buffer without a clear(): 1-2 longer texts of dual-joining
+    letters first, then the LAST call — empty, transparent-only (marks of the family), one letter, or an arbitrary
+    context.  -> (all ops, the last op alone)"""
+    f = FAMILIES[fam]
+    ops = [f"{side} " + hx([r.choice(f["dual"]) for _ in range(r.range(2, 6))]) for _ in range(r.range(1, 2))]
+    k = r.below(5)
+    if k == 0: last = []
+    elif k == 1: last = [r.choice(f["marks"]) for _ in range(r.range(1, 3))]
+    elif k == 2: last = [r.choice(f["marks"]) for _ in range(r.range(0, 2))] + [r.choice(f["bases"])]
+    elif k == 3: last = [r.choice(f["dual"])]
+    else: last = context_cps(r, fam)
+    last = f"{side} " + hx(last)
+    return ops + [last], last
+
+
+def recontext_request(r):
+    """A request whose contexts are set SEVERAL times before shaping (a caller that re-uses one UnicodeBuffer object for the
+    runs of a paragraph and updates the context as it goes), with add() / push_str interleaved; the text starts and ends
+    in a dual-joining letter, so both contexts matter.  -> (ops as the caller issues them, ops of the EQUIVALENT request
+    on a buffer that only ever sees the effective — last — context of each side, family).
+    Semantics used for the equivalent request (documented api): set_pre_context / set_post_context replace the side's
+    context; UnicodeBuffer::add drops the post-context; push_str keeps both."""
+    fam = r.choice(["arabic", "syriac"])
+    f = FAMILIES[fam]
+    t = [r.choice(f["dual"])] + family_text(r, fam, 0, 4) + [r.choice(f["dual"])]
+    pre_all, pre_last = context_calls(r, fam, "pre")
+    post_all, post_last = context_calls(r, fam, "post")
+    adds = [f"add {c:x} {i}" for i, c in enumerate(t)]
+    push = ["push " + hx(t)]
+    k = r.below(6)
+    if k == 0:      # everything before the text
+        ops, eq = pre_all + post_all + push, [pre_last, post_last] + push
+    elif k == 1:    # the classic order
+        ops, eq = pre_all + push + post_all, [pre_last] + push + [post_last]
+    elif k == 2:    # sides interleaved, text in the middle
+        ops, eq = post_all[:1] + pre_all[:1] + push + pre_all[1:] + post_all[1:], push + [pre_last, post_last]
+    elif k == 3:    # text by add(): after the adds both sides are set again
+        ops, eq = pre_all[:-1] + post_all[:-1] + adds + [post_last, pre_last], adds + [post_last, pre_last]
+    elif k == 4:    # add() after the post-context: the post-context is dropped, its array keeps the letters
+        ops, eq = post_all + pre_all + adds, [pre_last] + adds
+    else:           # two pushes with context calls in between
+        h = r.range(1, len(t) - 1)
+        ops = pre_all[:1] + ["push " + hx(t[:h])] + post_all + pre_all[1:] + ["push " + hx(t[h:])]
+        eq = ["push " + hx(t[:h]), post_last, pre_last, "push " + hx(t[h:])]
+    props = []
+    if r.chance(1, 3): props.append(f"dir {r.range(1, 2)}")
+    if r.chance(1, 2): props.append(f"script {f['script']}")
+    props.append(f"level {r.below(3)}")
+    props.append(f"flags {r.choice(FLAGS_ANY)}")
+    return ops + props, eq + props, fam
+
+
 def corpus_gpos_cases(shim, cases):
     """corpus (font, text) pairs whose font has a GPOS table and a glyph for U+25CC and whose text has a combining
     mark: [(fontspec, text)]"""
